@@ -5159,6 +5159,7 @@ class DecRule:
             self.depend = np.zeros((self.size,
                                     self.model.sup_model.vars[-1].last),
                                    dtype=int)
+        self.fit_depend()
 
         indices = rvar.get_ind()
         if ldr_indices is None:
@@ -5174,11 +5175,21 @@ class DecRule:
 
         self.depend[ldr_indices, indices] = 1
 
+    def fit_depend(self):
+
+        # random variables may have been declared after the first adapt() call
+        num_rand = self.model.sup_model.vars[-1].last
+        if self.depend is not None and self.depend.shape[1] < num_rand:
+            extra = np.zeros((self.size, num_rand - self.depend.shape[1]),
+                             dtype=int)
+            self.depend = np.concatenate((self.depend, extra), axis=1)
+
     def to_affine(self):
 
         if self.roaffine is not None:
             return self.roaffine
         else:
+            self.fit_depend()
             if self.depend is not None:
                 num_ones = self.depend.sum()
                 var_coeff = self.model.dvar(num_ones)
